@@ -36,7 +36,8 @@ try:
     r1 = sh("timeout 600 /venv/bin/python %s" % demo, env=env)
     print("demo with the change:   rc=%d" % r1.returncode)
     for c in checks:
-        r = sh("cd /verif && timeout 1800 ./check %s" % c)
+        # evidence of a run on a CHANGED tree does not belong in /verif/evidence (the committed files describe the unchanged tree)
+        r = sh("cd /verif && timeout 1800 ./check %s" % c, env=dict(os.environ, VERIF_EVIDENCE_DIR="/verif/.cache/seeded_evidence"))
         line = [l for l in r.stdout.splitlines() if l.startswith("VIOLATION")]
         out[c] = (r.returncode, line[0] if line else "", [l for l in r.stdout.splitlines() if l.startswith("  ")][:1])
         print("check %s: rc=%d %s %s" % (c, r.returncode, line[0] if line else "(no violation)", out[c][2]))
